@@ -16,7 +16,9 @@ Oracle (property relation evaluated on the implementation itself, independent nu
     every draw starts from the previous draw's returned chain states by value, zero-step draws return them unchanged
     and (torch.bernoulli wrapped) the first Gibbs conditional of each draw is the one computed from them; the caller's
     initial chains are untouched unless overwrite, and then hold the final chain states;
-  * System gives each observable the dictionary it gets alone on the same chain states."""
+  * System gives each observable the dictionary it gets alone on the same chain states.
+A leading sample(k=0, initial_state=None) call whose result only seeds the next call is chain initialisation, not a
+draw (split_init_call); all relations above are required on the draws."""
 import inspect
 import itertools
 import math
@@ -343,8 +345,30 @@ def run_merge(ctx, search=False):
 
 
 # ------------------------------------------------------------------------------------ (b), (c) statistics
-def check_calls(ctx, case, state, calls, S, nc, burn, steps, init_before):
-    """schedule / continuity oracle on the recorded sample() calls; returns (chains, draws) or None.
+def split_init_call(calls, results, obs0, state):
+    """Which recorded sample() calls are DRAWS?  A leading call with k = 0 and initial_state None whose result is
+    only handed on as the next call's initial_state is chain INITIALISATION, not a draw.  Decided by what the
+    returned dictionary is consistent with: try "all calls", then "all but a leading k=0 / None-init call"; a
+    candidate is consistent when the reported count is its number of rows and the reported mean is the mean of the
+    observable over its rows.  Returns (init_call or None, draws); falls back to all calls."""
+    cands = [(None, calls)]
+    if len(calls) >= 2 and calls[0]["k"] == 0 and calls[0]["init"] is None:
+        cands.append((calls[0], calls[1:]))
+    if len(cands) == 1:
+        return cands[0]
+    for ic, dr in cands:
+        try:
+            vals = [x for v in apply_obs(obs0, state, dr) for x in v]
+            if int(results[0]["num_samples"]) == len(vals) and near(results[0]["mean"], one_pass(vals)[0], max([1.0] + [abs(x) for x in vals])):
+                return ic, dr
+        except Exception:
+            pass
+    return cands[0]
+
+
+def check_calls(ctx, case, state, calls, S, nc, burn, steps, init_before, init_call=None):
+    """schedule / continuity oracle on the recorded DRAWS (sample() calls whose result enters the statistics;
+    init_call: a leading chain-initialisation call, see split_init_call); returns (chains, draws) or None.
     chains = number of chain states each draw returned (the same for every draw).  The documented rule that
     derives it from num_chains / num_samples is NOT demanded here (the property statement does not contain it);
     it is compared with the model's num_chains_eff for information only (histogram chains_rule:*)."""
@@ -360,7 +384,14 @@ def check_calls(ctx, case, state, calls, S, nc, burn, steps, init_before):
     ctx.require("k schedule is [burn_in, steps, ..., steps]", ks == [burn] + [steps] * (draws - 1), case,
                 {"k": ks, "burn_in": burn, "steps": steps})
     c0 = calls[0]
-    if init_before is None:
+    if init_before is None and init_call is not None:
+        ctx.count("first_draw_init:from_initialisation_call")
+        start = init_call["ret"]
+        ok0 = c0["init"] is not None and c0["init"].shape == start.shape and torch.equal(c0["init"], start)
+        ctx.require("the first draw starts from the chains the initialisation call returned", ok0, case)
+        if ok0 and state is not None:
+            continues_from(ctx, case, state, c0, start, 0)
+    elif init_before is None:
         ctx.count("first_draw_init:" + ("none" if c0["init"] is None else "given_by_statistics"))
     else:
         ok0 = c0["init"] is not None and c0["init"].shape == init_before.shape and torch.equal(c0["init"], init_before)
@@ -460,8 +491,17 @@ def stat_case(ctx, spec, state=None):
                                call_statistics, target, state, S, nc, burn, steps, init, ow, form)
     if not ok:
         return
-    calls = rec.calls
-    cd = check_calls(ctx, case, state, calls, S, nc, burn, steps, init_before)
+    all_calls = rec.calls
+    results = None
+    try:
+        results = [res[o.name] for o in obs_list] if is_system else [res]
+    except Exception as e:
+        ctx.require("statistics returns a dictionary per observable", False, case, repr(e))
+        return
+    init_call, calls = split_init_call(all_calls, results, obs_list[0], state) if all_calls else (None, all_calls)
+    if init_call is not None:
+        ctx.count("leading_initialisation_call")
+    cd = check_calls(ctx, case, state, calls, S, nc, burn, steps, init_before, init_call)
     if cd is None:
         return
     chains, draws = cd
@@ -475,7 +515,6 @@ def stat_case(ctx, spec, state=None):
             ctx.require("overwrite=False: the caller's initial_state is left unchanged", torch.equal(init, init_before), case)
     # values drawn, per observable
     vals = [apply_obs(o, state, calls) for o in obs_list]         # vals[obs][draw][chain]
-    results = [res[o.name] for o in obs_list] if is_system else [res]
     for o, r, v in zip(obs_list, results, vals):
         check_result(ctx, case, ("System[%s]" % o.name) if is_system else "statistics", r, v, S, chains, draws)
     allv = [x for v in vals[0] for x in v]
@@ -524,7 +563,7 @@ def stat_case(ctx, spec, state=None):
             ctx.agree("System dictionary of %s vs model system_statistics" % o.name,
                       [rr["mean"], rr["variance"], rr["std_error"], rr["num_samples"]], mm, case)
         # each observable alone on the same chain states
-        replay_states = [c["ret"] for c in calls]
+        replay_states = [c["ret"] for c in all_calls]
         for o, rr in zip(obs_list, results):
             i2 = None if init is None else init_before.clone()
             with Recorder(state, replay=replay_states) as rec2:
@@ -537,7 +576,7 @@ def stat_case(ctx, spec, state=None):
                 # chain states cannot be "the same chain states" for it; nothing the property constrains
                 ctx.count("system_vs_alone:different_chain_count(incomparable)")
                 continue
-            same_states = len(rec2.calls) == len(calls)
+            same_states = len(rec2.calls) == len(all_calls)
             good = same_states and all(near(alone[k], rr[k]) for k in ("mean", "variance", "std_error")) \
                 and alone["num_samples"] == rr["num_samples"]
             ctx.require("System gives each observable what it gets alone on the same chain states", good, case,
